@@ -11,7 +11,7 @@ CONSTANTS
   MaxIds = 2
   MaxFeats = 2
   MaxFields = 1
-  MaxVals = 2
+  MaxVals = 1
   MaxHist = 99
 INVARIANTS TypeOK
 PROPERTIES NeutralKeeps ChangeChanges SetsFollow
